@@ -61,7 +61,7 @@ LEAF_KINDS = ["prim", "f32", "f64", "bytes_fixed", "byte_array", "str", "str_fix
               "int_flag", "bitfield", "bool", "expr", "quant", "vec3", "quant_vec", "fixed_point", "string_enum", "ctx_adapter"]
 WINDOW_LEAF_KINDS = ["bytes_greedy"]
 NODE_KINDS = ["tuple", "template", "collection_prefixed", "collection_fixed", "optional_prefixed", "enum_switch", "flag_switch",
-              "typed_byte_array", "typed_bytes_fixed", "dataclass", "dict_adapter", "ctx_template", "flagged_template", "bitfield_dc"]
+              "typed_byte_array", "typed_bytes_fixed", "dataclass", "dict_adapter", "ctx_template", "ctx_tuple_template", "flagged_template", "bitfield_dc"]
 WINDOW_NODE_KINDS = ["collection_greedy", "if_present", "length_switch", "typed_bytes_greedy"]
 ALL_KINDS = LEAF_KINDS + WINDOW_LEAF_KINDS + NODE_KINDS + WINDOW_NODE_KINDS
 
@@ -185,7 +185,7 @@ def spec_desc(draw, depth=3, last=True, want_fixed=False):
         d["c"] = [sub(last=(last and i == n - 1)) for i in range(n)]
     elif kind == "dict_adapter":
         d["c"] = [sub(last=False)]
-    elif kind == "ctx_template":
+    elif kind in ("ctx_template", "ctx_tuple_template"):
         d["c"] = [sub(last=False), sub(last=False), sub(last=last)]
     elif kind == "flagged_template":
         d["flagspec"] = draw(st.sampled_from(["prim", "int_flag"]))
@@ -235,7 +235,7 @@ def _nonempty(d):
     if s:
         return True
     return d["k"] in ("byte_array", "str", "cstr", "collection_prefixed", "optional_prefixed", "typed_byte_array", "enum_switch",
-                      "flag_switch", "dict_adapter", "string_enum", "ctx_template", "flagged_template") or \
+                      "flag_switch", "dict_adapter", "string_enum", "ctx_template", "ctx_tuple_template", "flagged_template") or \
         (d["k"] == "bytes_term")
 
 
@@ -243,7 +243,7 @@ def self_delimiting(d):
     k = d["k"]
     if k in ("bytes_greedy", "collection_greedy", "if_present", "length_switch", "typed_bytes_greedy"):
         return False
-    if k in ("tuple", "template", "dataclass", "ctx_template", "flagged_template"):
+    if k in ("tuple", "template", "dataclass", "ctx_template", "ctx_tuple_template", "flagged_template"):
         return all(self_delimiting(c) for c in d["c"])
     if k in ("optional_prefixed", "enum_switch"):
         return all(self_delimiting(c) for c in d["c"])
@@ -359,6 +359,13 @@ def build(d):
             "body": se.ContextSwitch(lambda ctx: ctx.kind, {0: kids[0], 1: kids[1]}),
             "tail": kids[2],
         })
+    if k == "ctx_tuple_template":
+        # the context-dependent member sits inside a Tuple and looks at a field of the enclosing template (one level up)
+        return se.Template({
+            "kind": se.U8,
+            "body": se.Tuple(se.ContextSwitch(lambda ctx: ctx._.kind, {0: kids[0], 1: kids[1]}), se.U8),
+            "tail": kids[2],
+        })
     if k == "flagged_template":
         flag_spec = se.U8 if d["flagspec"] == "prim" else se.IntFlag(F1, se.U8)
         return se.Template({
@@ -457,6 +464,8 @@ def values(d):
         return st.dictionaries(st.integers(0, 0xFFFF), values(kids[0]), max_size=3).map(lambda m: [[a, b] for a, b in m.items()])
     if k == "ctx_template":
         return st.integers(0, 1).flatmap(lambda i: st.tuples(values(kids[i]), values(kids[2])).map(lambda t: [i, t[0], t[1]]))
+    if k == "ctx_tuple_template":
+        return st.integers(0, 1).flatmap(lambda i: st.tuples(values(kids[i]), values(kids[2]), st.integers(0, 255)).map(lambda t: [i, t[0], t[1], t[2]]))
     if k == "flagged_template":
         return st.tuples(st.integers(0, 255), values(kids[0]), values(kids[1])).map(list)
     raise ValueError(k)
@@ -552,6 +561,8 @@ def rich(d, v, spec=None, pod=False, reading=False):
         return {a: rich(kids[0], b, pod=pod, reading=reading) for a, b in v}
     if k == "ctx_template":
         return {"kind": v[0], "body": rich(kids[v[0]], v[1], pod=pod, reading=reading), "tail": rich(kids[2], v[2], pod=pod, reading=reading)}
+    if k == "ctx_tuple_template":
+        return {"kind": v[0], "body": (rich(kids[v[0]], v[1], pod=pod, reading=reading), v[3]), "tail": rich(kids[2], v[2], pod=pod, reading=reading)}
     if k == "flagged_template":
         flags = v[0]
         if d["flagspec"] == "int_flag":
